@@ -183,7 +183,7 @@ def x3(prog, rep):
             ("remove(self.blocks_pending_finalization,try_map_sequencer_height_to_rollup_height(" in ops[0]
              or "get_executed_block_metadata_with_retry(self.client,try_map_sequencer_height_to_rollup_height("
              in ops[0])
-        rep.check(ok, "X3", f"firm:OnlyFirm<=same-number:{line}",
+        rep.check(ok, "X3", rep.nth("firm:OnlyFirm<=same-number"),
                   f"Update::OnlyFirm names `{ops[0][:100]}`: not the block stored/fetched under the "
                   f"rollup number mapped from this sequencer height", f"{body.file}:{line}")
     for r in rpc:
